@@ -77,7 +77,7 @@ def configured_type_without_active(infos, userfile):
     """the known finding: the configuration lists accounts of a type for which the server reports no ACTIVE account"""
     active = set()
     for kind, acct, typ, status in infos:
-        if status == "ACTIVE":
+        if status == "ACTIVE" and kind != "bp":
             active.add(TYPE_OF.get(typ) if kind == "bank" else ("creditcard" if kind == "cc" else "investment"))
     return any(t in TYPES and t not in active for t in (userfile or {}))
 
